@@ -1,5 +1,6 @@
 import LassoProofs.Lemmas.ConcArenaHist
 import LassoModel.Extracted
+import LassoProofs.Lemmas.Config
 /-
   C09 — the memory limit also holds when threads intern concurrently.
 
@@ -106,5 +107,12 @@ def staleLimit : List Ev := List.replicate 13 (Ev.th 0 false) ++ [Ev.setMax 2] +
 
 example : (runE (init 2 64 [[[1, 2], [3, 4]]]) staleLimit).usage = 6 ∧ (runE (init 2 64 [[[1, 2], [3, 4]]]) staleLimit).max = 2 := by
   decide
+
+/-- The code this file's theorems are about is the same under every feature configuration: the regenerated
+census of conditional compilation contains import blocks, whole serde impls, optional-dependency impls and
+module declarations only, and no gate inside any function body (`Lemmas/Config.lean`). -/
+theorem same_code_under_every_feature_configuration :
+    (Extracted.cfgGates.all fun g => g.kind != .other) = true ∧ Extracted.bodyGates.isEmpty = true :=
+  Lasso.one_code_base_for_all_configurations
 
 end Lasso.C09
